@@ -1,11 +1,11 @@
-// counterexample for harness c12_failing_sink_frame (property C12) found by CBMC on bbed4001b893b2dea8a8f693b537f26ef3100e28
-// failed checks: [{"description": "This is a placeholder message; Kani doesn't support message formatted at runtime", "function": "std::result::unwrap_failed", "file": "result.rs", "line": "1871"}]
+// counterexample for harness c12_failing_sink_frame (property C12) found by CBMC on 79f96efe2527a737c3734099f028874ccab69f11+dirty
+// failed checks: [{"description": "assertion failed: is_sink_err", "function": "component::bitrepr::verif_kani::c12_failing_sink_frame", "file": "bitrepr.rs", "line": "882"}]
 // native replay (test fails = reproduced): {"kani_concrete_playback_c12_failing_sink_frame_3113096050227243268": {"dev": true, "release": null}, "kani_concrete_playback_c12_failing_sink_frame_14392891134020326689": {"dev": true, "release": null}}
 // replay: /verif/check.py --replay /verif/replays/C12/c12_failing_sink_frame.rs
 //@replay-harness: c12_failing_sink_frame
 /// Test generated for harness `component::bitrepr::verif_kani::c12_failing_sink_frame` 
 ///
-/// Check for `cover`: "cover condition: k + 1 == ops"
+/// Check for `assertion`: "assertion failed: is_sink_err"
 ///
 /// # Warning
 ///
@@ -29,7 +29,7 @@ fn kani_concrete_playback_c12_failing_sink_frame_3113096050227243268() {
 
 /// Test generated for harness `component::bitrepr::verif_kani::c12_failing_sink_frame` 
 ///
-/// Check for `assertion`: "This is a placeholder message; Kani doesn't support message formatted at runtime"
+/// Check for `cover`: "cover condition: k == 0"
 ///
 /// # Warning
 ///
